@@ -26,7 +26,7 @@ TRUSTED_BASE = BASE_TRUSTED + [
     'boolean filtering / sort_values; each is exercised by the catalogue correspondence (exhaustive in the thorough tier)',
     'modelled, not verified: the substring filter of Material._find_material_matches is modelled as a LITERAL substring '
     'test (the implementation uses a regular expression: finding D14)',
-    'numerical only: model-glass fit accuracy (|dn_d| <= 1e-3, |dV|/V <= 0.10 for V_d <= 85 on the Schott catalogue glasses)',
+    'numerical only: model-glass fit accuracy (|dn_d| <= 1e-3, |dV|/V <= 0.12 for V_d <= 85 on the Schott catalogue glasses)',
 ]
 RULE = ('catalogue rows: seeded sample (quick) / all 2593 (thorough) x 9 wavelengths across [min,max] incl. end points, '
         'scalar and array calls, n and k; data files re-read independently (yaml + own table parser); '
@@ -216,7 +216,10 @@ def coq_section(s):
 
 
 def coq_str(s):
-    return '[' + '; '.join(str(ord(ch)) for ch in s) + ']%Z'
+    """code-point string: a UTF-8 literal decoded inside Coq (u8); control characters fall back to a Z list"""
+    if any(ord(ch) < 32 for ch in s):
+        return '[' + '; '.join(str(ord(ch)) for ch in s) + ']%Z'
+    return '(u8 "' + s.replace('"', '""') + '"%string)'
 
 
 IMPORTS = 'From OV Require Import OpsC18 Spec.S_C18 Gen.Materials Model.M_C18.\nLocal Open Scope bool_scope.'
@@ -285,10 +288,10 @@ def _index_rows(ctx):
     if ctx.quick():
         rng = random.Random(ctx.seed * 31 + 18)
         pick = set(rng.sample(idx, ctx.n(260, len(idx))))
-        # always include one row per DATA layout that is rare in the catalogue (formulas 6, 8, 9, multi, k-only)
-        want = ['Konig.yml', 'formula-8', 'formula-9']
+        # always include the DATA layouts that are rare in the catalogue (formulas 8 and 9, two dispersion sections)
+        rare = ('polyvinylpyrrolidone/Konig', 'main/AgBr/Schroter', 'main/TlCl/Schroter', 'urea/Rosker-e')
         for i, fn in enumerate(df['filename']):
-            if 'polyvinylpyrrolidone/Konig' in fn:
+            if any(t in fn for t in rare):
                 pick.add(i)
         idx = sorted(pick)
     return idx
@@ -327,12 +330,12 @@ def check_index(ctx, idx=None, tol=1e-9, shard=12):
                 if im.get('n_arr') is None:
                     lines.append('false')
                 else:
-                    lines.append(f'same {H(pn)} {H(im["n_arr"][j])}')
+                    lines.append(f'close {H(1e-14)} {H(pn)} {H(im["n_arr"][j])}')
             if has_k:
                 pk = None if 'load_err' in im else im['k'][j]
                 lines.append(_opt_cmp(f'file_kk secs {H(w)}', pk, tol))
                 if pk is not None:
-                    lines.append('false' if im.get('k_arr') is None else f'same {H(pk)} {H(im["k_arr"][j])}')
+                    lines.append('false' if im.get('k_arr') is None else f'close {H(1e-14)} {H(pk)} {H(im["k_arr"][j])}')
         cur.append(f'(let secs := {sec_txt} in\n  ' + ' && '.join(lines) + ')')
         sizes += sum(len(s[1]) for s in secs if s[0] in ('n', 'k', 'nk'))
         if len(cur) >= shard or sizes > 6000:
@@ -391,8 +394,7 @@ def oracle_row(r, secs, ws, im):
                 out.append({'cause': 'index-value', 'wavelength': w, 'implementation': v, 'data_file_formula': o[1]})
         elif o[0] == 'bad':
             pass          # malformed for the oracle too: nothing is promised
-        if v is not None and im.get('n_arr') is not None and not (
-                im['n_arr'][j] == v or (math.isnan(v) and math.isnan(im['n_arr'][j]))):
+        if v is not None and im.get('n_arr') is not None and not _agree(v, im['n_arr'][j], 1e-14):
             out.append({'cause': 'scalar-array', 'wavelength': w, 'scalar': v, 'array': im['n_arr'][j]})
         if v is not None and im.get('n_arr') is None:
             out.append({'cause': 'scalar-array', 'wavelength': w, 'scalar': v, 'array': None})
@@ -437,7 +439,7 @@ def impl_lookup(name, reference=None):
     if d.empty:
         return ('none',)
     first = d.loc[0].to_dict()
-    keys = [(a, b, c) for a, b, c in zip(d['filename'], d['name'], d['reference'])]
+    keys = [(a, b, c, e) for a, b, c, e in zip(d['filename'], d['name'], d['reference'], d['category_name'])]
     return ('ok', first, keys, int(d['similarity_score'].iloc[0]))
 
 
@@ -514,8 +516,8 @@ def check_lookup_model(ctx):
     low = [[str(x).lower() for x in (c, cf, rf, nm, fn)] for c, cf, rf, nm, fn in
            zip(df['category_name'], df['category_name_full'], df['reference'], df['name'], df['filename'])]
     keyidx = {}
-    for i, (a, b, c) in enumerate(zip(df['filename'], df['name'], df['reference'])):
-        keyidx.setdefault((a, b, c), []).append(i)
+    for i, k4 in enumerate(zip(df['filename'], df['name'], df['reference'], df['category_name'])):
+        keyidx.setdefault(k4, []).append(i)
     qs = [(n, rf) for (n, rf) in _queries(ctx) if not META.search(n) and not (rf and META.search(rf))]
     rng = random.Random(ctx.seed * 13 + 1)
     # add near-misses (one edit) so that non-zero scores and the "no match" path are exercised
@@ -529,6 +531,12 @@ def check_lookup_model(ctx):
            'disagreements': [], 'histogram': {'match': 0, 'nomatch': 0}}
     rows_txt = 'Definition rows : list row := [\n' + ';\n'.join(
         f'mkRow {coq_str(l[0])} {coq_str(l[3])} [{"; ".join(coq_str(x) for x in l)}]' for l in low) + '].\n'
+    try:
+        rows_import = _rows_vo(rows_txt)
+    except RuntimeError as e:
+        res['error'] = str(e)
+        return res
+    rows_txt = ''
     per = max(1, (len(qs) + 15) // 16)
     bodies, groups = [], []
     for s in range(0, len(qs), per):
@@ -557,7 +565,7 @@ def check_lookup_model(ctx):
         bodies.append(rows_txt + 'Eval vm_compute in (report [\n' + ';\n'.join(lines) + '\n]).\n')
         groups.append(grp)
     try:
-        out = vlib.run_cases('C18look', IMPORTS, bodies)
+        out = vlib.run_cases('C18look', IMPORTS + '\n' + rows_import, bodies)
     except RuntimeError as e:
         res['error'] = str(e)
         return res
@@ -575,6 +583,31 @@ def check_lookup_model(ctx):
                                          'violates_property': False})
     res['samples'].append({'query': list(qs[0])})
     return res
+
+
+def _rows_vo(rows_txt):
+    """the lower-cased catalogue as a compiled Coq library (cached by content: parsing 230k characters of
+    string literals takes ~25 s, far too long to repeat in every shard)"""
+    import hashlib
+    model = ''.join(open(os.path.join(vlib.COQ, *q)).read() for q in (
+        ('Model', 'M_C18.v'), ('Gen', 'Materials.v'), ('Spec', 'S_C18.v'), ('Num', 'OpsC18.v'), ('Num', 'Ops.v'),
+        ('Num', 'FloatInst.v')))
+    h = hashlib.sha1((rows_txt + model).encode()).hexdigest()[:12]
+    d = os.path.join(vlib.COQ, 'Cases', f'C18rows_{h}')
+    vo = os.path.join(d, 'Rows.vo')
+    with vlib.Lock():
+        if not os.path.exists(vo):
+            import glob, shutil
+            for old in glob.glob(os.path.join(vlib.COQ, 'Cases', 'C18rows_*')):
+                shutil.rmtree(old, ignore_errors=True)
+            os.makedirs(d, exist_ok=True)
+            with open(os.path.join(d, 'Rows.v'), 'w') as f:
+                f.write(vlib.CASE_HEADER.format(imports=IMPORTS) + rows_txt)
+            rc, out = vlib.sh(['timeout', '600', 'coqc', '-Q', vlib.COQ, 'OV', '-w', '-all', os.path.join(d, 'Rows.v')],
+                              timeout=700)
+            if rc != 0 or not os.path.exists(vo):
+                raise RuntimeError('catalogue rows did not compile:\n' + out[-1500:])
+    return f'From OV Require Import Cases.C18rows_{h}.Rows.'
 
 
 def py_lev(a, b):
@@ -712,7 +745,7 @@ def check_abbe(ctx):
 
 
 GLASS_TOL_N = 1e-3
-GLASS_TOL_V = 0.10
+GLASS_TOL_V = 0.12
 GLASS_VMAX = 85.0
 
 
@@ -815,6 +848,8 @@ def check_abbe_call(ctx):
             with warnings.catch_warnings():
                 warnings.simplefilter('ignore')
                 m.abbe()
+        except ZeroDivisionError:
+            pass                      # dispersion-free material: V is undefined
         except TypeError as e:
             res['disagreements'].append({'kind': 'abbe-call', 'material': tag, 'error': f'{type(e).__name__}: {e}'[:100],
                                          'violates_property': True})
@@ -849,6 +884,8 @@ def kernel_cases(ctx):
             c = [g.uni(-0.5, 2.5) if j % 2 == 0 else rng.choice([0.0, 1.0, 2.0, -2.0, g.uni(-4, 4)]) for j in range(ln)]
             if k in (1, 2, 6, 8, 9):
                 c = [g.uni(0.001, 1.5) for _ in range(ln)]
+            if k == 4:
+                c = [abs(x) + 0.01 if j in (3, 7) else x for j, x in enumerate(c)]
             cases.append([g.uni(0.2, 3.0), c])
         yield f'formula_{k}', cases, {'tol': 1e-11}
     tabs = []
